@@ -104,6 +104,13 @@ fn quirk_of(seed: u64, idx: usize) -> u8 {
     }
 }
 
+/// Whether the last sheet of the workbook `seed` carries the name of the first one (a stream of
+/// its own, see `quirk_of`).  Which of the two a name then selects is the reader's business; that
+/// every access path selects the same one is the property's.
+fn dup_name(seed: u64, n_sheets: usize) -> bool {
+    n_sheets >= 2 && crate::prng::h3(seed, crate::prng::tag("synth-dupname"), 0) % 6 == 0
+}
+
 impl Sheet {
     /// The rows in the order and multiplicity in which they are written
     fn emitted_rows(&self) -> Vec<(u32, Vec<(u32, V)>)> {
@@ -460,10 +467,11 @@ fn grid_sheets(seed: u64, tag: &str) -> (Vec<Sheet>, Vec<String>) {
     let mut ch = Chooser::new(seed, tag);
     let n_sheets = ch.range(1, 4) as usize;
     let strings: Vec<String> = (0..ch.range(3, 9)).map(|i| format!("{} {}", WORDS[ch.below(WORDS.len() as u64) as usize], i)).collect();
+    let dup = dup_name(seed, n_sheets);
     let sheets = (0..n_sheets)
         .map(|i| {
             let mut s = gen_sheet(&mut ch, i, strings.len());
-            s.name = format!("S{}", i + 1);
+            s.name = if dup && i + 1 == n_sheets { "S1".to_string() } else { format!("S{}", i + 1) };
             s.shared_formula = None;
             s.implicit = false;
             s.quirk = quirk_of(seed, i);
